@@ -15,9 +15,12 @@ import (
 	"github.com/miekg/dns"
 )
 
-//verif:harness H18_wire property=C18 native=yes quick=k=1,vmax=2,empty=0;k=2,vmax=1,empty=0;k=2,vmax=1,empty=1 thorough=k=2,vmax=2,empty=0;k=3,vmax=1,empty=0;k=3,vmax=1,empty=1
+//verif:harness H18_wire property=C18 native=yes quick=k=1,vmax=2,empty=0,mand=0;k=2,vmax=1,empty=0,mand=0;k=2,vmax=1,empty=1,mand=0;k=3,vmax=1,empty=0,mand=1 thorough=k=2,vmax=2,empty=0,mand=0;k=3,vmax=1,empty=0,mand=0;k=3,vmax=1,empty=1,mand=0
 
 var verifVmax = 2
+
+// verifMandNames, when set, fixes the keys that the next `mandatory` parameter names.
+var verifMandNames []int
 
 var verifKeyNames = []string{"mandatory", "alpn", "no-default-alpn", "port", "ipv4hint", "echconfig", "ipv6hint"}
 
@@ -56,7 +59,7 @@ type verifDecl struct {
 	key       int
 	mand      []int    // mandatory: named keys, in declaration order
 	alpn      [][]byte // alpn ids
-	port      uint32   // numeric value of the port text (may exceed 65535)
+	port      uint64   // numeric value of the port text (may exceed 65535); built like strconv.ParseUint builds it, so that the two terms coincide
 	v4        [][4]byte
 	ech       []byte
 	v6        []net.IP
@@ -69,8 +72,45 @@ func verifPlainByte() byte {
 	return b
 }
 
+// verifFixedValues: parameter values are fixed instead of solver-chosen (the shape that studies
+// the `mandatory` value itself).
+var verifFixedValues bool
+
+func verifFixedParamText(d *verifDecl) []byte {
+	t := append([]byte(verifKeyNames[d.key]), '=')
+	switch d.key {
+	case 0:
+		for i, k := range verifMandNames {
+			d.mand = append(d.mand, k)
+			if i > 0 {
+				t = append(t, '|')
+			}
+			t = append(t, verifKeyNames[k]...)
+		}
+	case 1:
+		d.alpn = [][]byte{[]byte("h2")}
+		t = append(t, "h2"...)
+	case 3:
+		d.port = 443
+		t = append(t, "443"...)
+	case 4:
+		d.v4 = [][4]byte{{1, 2, 3, 4}}
+		t = append(t, "1.2.3.4"...)
+	case 5:
+		d.ech = []byte{1, 2, 3}
+		t = append(t, verifBase64(d.ech)...)
+	case 6:
+		d.v6 = []net.IP{net.ParseIP("2001:db8::1")}
+		t = append(t, "2001:db8::1"...)
+	}
+	return t
+}
+
 // verifParamText renders one declaration as tinydns text and records the declared values.
 func verifParamText(d *verifDecl) []byte {
+	if verifFixedValues {
+		return verifFixedParamText(d)
+	}
 	var t []byte
 	t = append(t, verifKeyNames[d.key]...)
 	t = append(t, '=')
@@ -81,8 +121,16 @@ func verifParamText(d *verifDecl) []byte {
 	switch d.key {
 	case 0: // mandatory=<name>|<name>
 		n := 1 + nd.Choice(verifVmax)
+		if verifMandNames != nil {
+			n = len(verifMandNames)
+		}
 		for i := 0; i < n; i++ {
-			k := nd.Choice(7)
+			k := 0
+			if verifMandNames != nil {
+				k = verifMandNames[i]
+			} else {
+				k = nd.Choice(7)
+			}
 			d.mand = append(d.mand, k)
 			if i > 0 {
 				t = append(t, '|')
@@ -108,7 +156,7 @@ func verifParamText(d *verifDecl) []byte {
 		for i := 0; i < nd_; i++ {
 			c := nd.Byte()
 			nd.Assume(nd.And(c >= '0', c <= '9'))
-			d.port = d.port*10 + uint32(c-'0')
+			d.port = d.port*10 + uint64(c-'0')
 			t = append(t, c)
 		}
 	case 4: // ipv4hint=a.b.c.d|...  (single-digit octets)
@@ -173,8 +221,24 @@ func H18_wire() {
 	}
 	decls := make([]*verifDecl, k)
 	var text []byte
+	verifMandNames, verifFixedValues = nil, false
+	if nd.Param("mand") == 1 {
+		verifFixedValues = true
+		// a satisfiable `mandatory` with two names: the list is mandatory plus the two keys it
+		// names, in an order chosen by the solver (k must be 3)
+		a := 1 + nd.Choice(6)
+		b := 1 + nd.Choice(6)
+		nd.Assume(a != b)
+		verifMandNames = []int{a, b}
+		order := [][]int{{0, a, b}, {a, 0, b}, {b, a, 0}}[nd.Choice(3)]
+		for i := range decls {
+			decls[i] = &verifDecl{key: order[i]}
+		}
+	}
 	for i := range decls {
-		decls[i] = &verifDecl{key: nd.Choice(7)}
+		if decls[i] == nil {
+			decls[i] = &verifDecl{key: nd.Choice(7)}
+		}
 		if i > 0 {
 			text = append(text, ';')
 		}
@@ -301,7 +365,7 @@ func verifJudge18(decls []*verifDecl, l ParamList, err error) {
 			_, ok := kv.(*dns.SVCBNoDefaultAlpn)
 			ck(ok, "no-default-alpn-empty")
 		case 3:
-			ck(uint32(kv.(*dns.SVCBPort).Port) == d.port, "port-faithful")
+			ck(uint64(kv.(*dns.SVCBPort).Port) == d.port, "port-faithful")
 		case 4:
 			h := kv.(*dns.SVCBIPv4Hint)
 			ck(len(h.Hint) == len(d.v4), "ipv4hint-count")
